@@ -56,28 +56,38 @@ _UTAG = [(1, 1), (1, 2), (2, 1), (3, 1), (4, 1), (4, 2), (2, 2), (3, 2), (1, 3),
          (5, 1), (6, 1), (7, 1)]
 
 
-_WRITE = {"explicit": False}      # how objects are written down while _written(True) is active
+_WRITE = {"explicit": False, "extras": None}      # how terms / objects are written down inside a _written(...) block
+_EXTRAS = {"extras_ab": ["x_a", "x_b"], "extras_ba": ["x_b", "x_a"]}       # two extra attributes, in the order given
+_EXTRA_VALUES = {"x_a": "1", "x_b": "2"}
 
 
 class _written:
-    """Within this block constructors receive every optional field explicitly, with its default value."""
-    def __init__(self, explicit):
-        self.explicit = explicit
+    """Within this block: "explicit_defaults" -- constructors receive every optional field explicitly, with its default
+    value; "extras_ab" / "extras_ba" -- every Term (the only class with extra = "allow") receives the same two extra
+    attributes, given in that order."""
+    def __init__(self, how):
+        self.how = how
 
     def __enter__(self):
-        self.old, _WRITE["explicit"] = _WRITE["explicit"], self.explicit
+        self.old = dict(_WRITE)
+        _WRITE["explicit"] = self.how == "explicit_defaults"
+        _WRITE["extras"] = _EXTRAS.get(self.how)
 
     def __exit__(self, *a):
-        _WRITE["explicit"] = self.old
+        _WRITE.update(self.old)
 
 
 def _make(model, **kw):
-    """model(**kw); in explicit mode also pass every optional field that kw leaves out, with its declared default."""
+    """model(**kw); in explicit mode also pass every optional field that kw leaves out, with its declared default;
+    in an extras mode give a Term its two extra attributes, in the order of the mode."""
     if _WRITE["explicit"]:
         for name, f in model.model_fields.items():
             key = f.alias or name                      # Term.type_of_term / term_range are written "type" / "range"
             if name not in kw and key not in kw and not f.is_required():
                 kw[key] = f.get_default(call_default_factory=True)
+    if _WRITE["extras"] and model is data.Term:
+        for name in _WRITE["extras"]:
+            kw[name] = _EXTRA_VALUES[name]
     return model(**kw)
 
 
@@ -87,7 +97,7 @@ def _term(t):
 
 def _tag(u, prov="fresh"):
     t, v = _UTAG[u - 1]
-    with _written(prov == "explicit_defaults"):
+    with _written(prov):
         return data.Tag(term=_term(t), value=_VALUES[v - 1])
 
 
@@ -198,8 +208,9 @@ def _realise(cls, x, prov):
     mode, f = prov["mode"], prov["f"]
     if mode == "fresh":
         return _build(cls, x)
-    if mode == "explicit_defaults":       # the object and every Term inside it: optional fields passed with their defaults
-        with _written(True):
+    if mode in ("explicit_defaults", "extras_ab", "extras_ba"):
+        # the object and every Term inside it: optional fields passed with their defaults / two extra attributes in order
+        with _written(mode):
             return _build(cls, x)
     model, fields, _ = FIELDS[cls]
     if mode in ("deep_copy", "revalidate"):
@@ -253,7 +264,8 @@ def random_cases(rng, tier):
             tags[rng.randrange(lt)] = tags[0]
         scs = [[rng.randrange(0, 5) for _ in tags] for _ in range(2)]
         keep = [j for j, u in enumerate(tags) if u in vocab]     # re-derived and checked by Encoding!Filtered in TLC
-        vp, qp = rng.choice([("fresh", "fresh"), ("fresh", "explicit_defaults"), ("explicit_defaults", "fresh")])
+        vp, qp = rng.choice([("fresh", "fresh"), ("fresh", "explicit_defaults"), ("explicit_defaults", "fresh"),
+                             ("extras_ab", "extras_ba"), ("extras_ba", "extras_ab"), ("extras_ab", "extras_ab")])
         yield {"kind": "enc", "vocab": vocab, "tags": tags, "scs": scs, "vprov": vp, "qprov": qp,
                "ftags": [tags[j] for j in keep], "fscs": [[sc[j] for j in keep] for sc in scs]}
 
